@@ -133,6 +133,112 @@ impl tree_sitter_graph::functions::Function for Constant {
 
 /// One function table used for several executions; between them the caller registers another
 /// implementation under the same name: every execution sees the table as it is at that time.
+/// tokens joined by single white-space characters, `newlines` of which (chosen at random) are
+/// line feeds: every variant has the same length in bytes and another line structure
+fn respaced(tokens: &[&str], newlines: usize, rng: &mut Rng) -> String {
+    let seps = tokens.len().saturating_sub(1);
+    let mut idx: Vec<usize> = (0..seps).collect();
+    rng.shuffle(&mut idx);
+    let chosen: Vec<usize> = idx.into_iter().take(newlines.min(seps)).collect();
+    let mut t = String::new();
+    for (i, tok) in tokens.iter().enumerate() {
+        t.push_str(tok);
+        if i < seps {
+            t.push(if chosen.contains(&i) { '\n' } else { ' ' });
+        }
+    }
+    t.push('\n');
+    t
+}
+
+/// everything a failing load or execution renders, plain and pretty, under fixed paths
+fn rendering_transcript(text: &str, source: &str) -> String {
+    let r = catch(|| {
+        let file = match File::from_str(python(), text) {
+            Ok(f) => f,
+            Err(e) => return format!("LOAD {} || {}", e, e.display_pretty(Path::new("rules.tsg"), text)),
+        };
+        let tree = parse_python(source);
+        let functions = Functions::stdlib();
+        let vars = Variables::new();
+        let mut t = String::new();
+        for lazy in [false, true] {
+            let config = ExecutionConfig::new(&functions, &vars).lazy(lazy);
+            match file.execute(&tree, source, &config, &NoCancellation) {
+                Ok(_) => t.push_str("OK;"),
+                Err(e) => t.push_str(&format!("EXEC {} || {};", e, e.display_pretty(Path::new("src.py"), source, Path::new("rules.tsg"), text))),
+            }
+        }
+        for e in tree_sitter_graph::parse_error::ParseError::all(&tree) {
+            t.push_str(&format!("SYNTAX {} || {};", e.display(Path::new("src.py"), source), e.display_pretty(Path::new("src.py"), source)));
+        }
+        t
+    });
+    match r {
+        Ok(t) => t,
+        Err(p) => format!("PANIC {} {}", p.location, p.message),
+    }
+}
+
+/// Diagnostics do not depend on what was rendered before: texts of one length and different
+/// line structure, shown one after the other under the same path, read the same as on a thread
+/// that has never rendered anything.
+fn rendering_history(rng: &mut Rng, out: &mut Out) {
+    const DSL: &[&str] = &[
+        "(module) { node n attr (n) a = 1 print zq_undefined }",
+        "(module) { node n attr (n) a = (plus \"x\" 1) attr (n) b = 2 }",
+        "(identifier) @id { node n attr (n) t = (source-text @id) attr (n) t = (node-type @id) }",
+        "(module) { node n let = 1 }",
+        "(call function: (identifier) @f) { node n attr (n) callee = (source-text @f), arity = (no-such-function @f) }",
+        "(module) { node n scan \"abc\" { \"b\" { attr (n) hit = $0 attr (n) hit = $1 } } }",
+    ];
+    const SRC: &[&str] = &["x = f(a, b, c, d) ; y = g(x, 1, 2)", "print(f(1, 2, [3, 4, 5], k = 6))", "x = (1 + ) ; y = g(x, ]"];
+    let dsl_tokens: Vec<&str> = rng.pick(DSL).split(' ').collect();
+    let src_raw: &str = *rng.pick(SRC);
+    // in the source only the blanks after commas may become line feeds
+    let src_tokens: Vec<&str> = src_raw.split(", ").collect();
+    let src_variant = |rng: &mut Rng| -> String {
+        let seps = src_tokens.len() - 1;
+        let a = rng.below(seps);
+        let mut t = String::new();
+        for (i, tok) in src_tokens.iter().enumerate() {
+            t.push_str(tok);
+            if i < seps {
+                t.push_str(if i == a { ",\n" } else { ", " });
+            }
+        }
+        t.push('\n');
+        t
+    };
+    let k = 2 + rng.below(3);
+    let variants: Vec<(String, String)> = (0..3).map(|_| (respaced(&dsl_tokens, k, rng), src_variant(rng))).collect();
+    // with history: one after the other on this (long-lived) thread
+    let here: Vec<String> = variants.iter().map(|(t, s)| rendering_transcript(t, s)).collect();
+    // without: each on a thread of its own
+    for (i, (t, s)) in variants.iter().enumerate() {
+        let (t2, s2) = (t.clone(), s.clone());
+        let fresh = std::thread::spawn(move || rendering_transcript(&t2, &s2)).join().unwrap_or_else(|_| "THREAD-PANIC".into());
+        out.evals(2);
+        if fresh != here[i] {
+            let earlier: Vec<&String> = variants.iter().take(i).map(|v| &v.0).collect();
+            out.violation("C12:diagnostic-depends-on-history", &format!("rendering #{} on a thread that rendered other texts of the same length before differs from the rendering on a fresh thread: {:?} vs {:?}", i + 1, crate::util::trunc(&here[i], 400), crate::util::trunc(&fresh, 400)), json!({"dsl": t, "source": s, "rendered_before_on_the_same_thread": earlier, "kind": "rendering_history"}));
+            return;
+        }
+        if here[i].starts_with("PANIC") {
+            out.violation("C12:panic", &here[i], json!({"dsl": t, "source": s, "kind": "rendering_history"}));
+            return;
+        }
+    }
+    out.feat("diagnostics_of_equal_length_texts_compared_with_fresh_threads");
+    if here.iter().any(|h| h.contains("EXEC")) {
+        out.feat("rendering_history:execution_error");
+    }
+    if here.iter().any(|h| h.starts_with("LOAD")) {
+        out.feat("rendering_history:load_error");
+    }
+    out.nontrivial(hash_str(&here.join("|")));
+}
+
 fn replaced_function(rng: &mut Rng, out: &mut Out) {
     let text = "(module) { node n attr (n) first = (zq-origin) node m attr (m) other = (zq-other), again = (zq-origin) }\n";
     let source = "pass\n";
@@ -306,6 +412,10 @@ impl Prop for C12 {
     fn run_case(&self, _cfg: &RunCfg, idx: usize, rng: &mut Rng, out: &mut Out) {
         if idx % 20 == 9 {
             replaced_function(rng, out);
+            return;
+        }
+        if idx % 20 == 4 {
+            rendering_history(rng, out);
             return;
         }
         let c = make_case(rng);
